@@ -304,6 +304,10 @@ class C03Unit(object):
         t['list_names'] = names
         t['lists'] = {n: list(getattr(CS, n)) for n in names}
         t['flags'] = self.repair_flags(conn_tree, conn_src)
+        # behavioural probe: does validate() keep `versions` below maxVersion?
+        probe = hs.HandshakeSettings()
+        probe.minVersion, probe.maxVersion = (3, 1), (3, 2)
+        t['flags'].append(('fix_versions_clipped', all(v <= (3, 2) for v in probe.validate().versions)))
         t['client_order'] = self.client_order(conn_tree, ctree)
         t['server_order'] = self.server_order(conn_tree, ctree)
         t['names'] = {k: list(getattr(hs, v)) for k, v in NAME_TABLES.items()}
